@@ -898,11 +898,11 @@ func (mb *Metablock) Sigs() []Signature {
 }
 
 /*
-VerifySignature verifies the first signature, corresponding to the passed Key,
-that it finds in the Signatures field of the Metablock on which it was called.
+VerifySignature verifies the signatures, corresponding to the passed Key, that
+it finds in the Signatures field of the Metablock on which it was called.
 It returns an error if Signatures does not contain a Signature corresponding to
-the passed Key, the object in Signed cannot be canonicalized, or the Signature
-is invalid.
+the passed Key, the object in Signed cannot be canonicalized, or none of the
+key's Signatures is valid.
 */
 func (mb *Metablock) VerifySignature(key Key) error {
 	sig, err := mb.GetSignatureForKeyID(key.KeyID)
@@ -921,16 +921,30 @@ func (mb *Metablock) VerifySignature(key Key) error {
 	}
 
 	sigBytes, err := hex.DecodeString(sig.Sig)
-	if err != nil {
-		return err
+	if err == nil {
+		err = verifier.Verify(context.Background(), payload, sigBytes)
+	}
+	if err == nil {
+		return nil
 	}
 
-	err = verifier.Verify(context.Background(), payload, sigBytes)
-	if err != nil {
-		return err
+	// The first signature for the key is not valid, e.g. because it was made
+	// before the metadata was changed and signed again (Sign appends).  The
+	// metadata is properly signed, if any other signature of the key is valid.
+	for _, s := range mb.Signatures {
+		if s.KeyID != key.KeyID {
+			continue
+		}
+		otherSigBytes, decodeErr := hex.DecodeString(s.Sig)
+		if decodeErr != nil {
+			continue
+		}
+		if verifier.Verify(context.Background(), payload, otherSigBytes) == nil {
+			return nil
+		}
 	}
 
-	return nil
+	return err
 }
 
 // GetSignatureForKeyID returns the signature that was created by the provided keyID, if it exists.
